@@ -29,6 +29,12 @@ func VerifC06_CanaryDeleteFaults() {
 		if verifrt.Bool("canary.hasFinalizer") {
 			d.Finalizers = []string{util.CanaryDeploymentFinalizer}
 		}
+		// a canary Deployment that is already being deleted (foreground deletion of its owner, or by hand) is waiting
+		// for exactly this finalizer to go
+		if verifrt.Bool("canary.terminating") {
+			now := metav1.Now()
+			d.DeletionTimestamp = &now
+		}
 		if verifrt.Bool("canary.hasOtherFinalizer") {
 			d.Finalizers = append(d.Finalizers, "example.com/keep")
 		}
@@ -71,6 +77,10 @@ func VerifC06_CanaryDeleteFaults() {
 	}
 	verifrt.Cover("C06.canaryDelete.done")
 }
+
+// C18: Finalize of a canary-style release is over (the release may go Completed and lose its own finalizer) only when
+// every canary Deployment it generated — the ones already terminating included — has been released.
+func VerifC18_CanaryDeleteReleasesEveryCanaryDeployment() { VerifC06_CanaryDeleteFaults() }
 
 // VerifC06_BuildCanaryControllerUnderFaults: the canary Deployment is re-discovered on every reconcile by owner and
 // template. With every API call allowed to fail, "not found" (the answer that makes Initialize create a canary
